@@ -1,6 +1,7 @@
 #include "multi_buffergroup.h"
 #include <string>
 #include <iostream>
+#include "../../wverif.h"
 
 /*################################
   初始化
@@ -185,6 +186,7 @@ u8_t *buffergroup::require_buffer_entry(const u8_t id)
   u8_t *result = buflst[id].get_entry();
   if (result == NULL)
   {
+    WV_SCHED(1);
     ctrl[id].set_update();
     ctrl[id].wait_ready();
     if (ctrl[id].cmpstate(READY))
